@@ -14,6 +14,7 @@ import (
 	sm "github.com/lni/dragonboat/v4/statemachine"
 	drummer "github.com/lni/drummer/v3"
 	pb "github.com/lni/drummer/v3/drummerpb"
+	"verif/harness/internal/hx"
 	"google.golang.org/protobuf/proto"
 )
 
@@ -537,7 +538,7 @@ func Restore(data []byte) (db sm.IStateMachine, panicked bool) {
 		}
 	}()
 	n := drummer.NewDB(0, 2)
-	if err := n.RecoverFromSnapshot(bytes.NewReader(data), nil, nil); err != nil {
+	if err := n.RecoverFromSnapshot(hx.NewShortReader(data), nil, nil); err != nil {
 		panic(err)
 	}
 	return n, false
@@ -551,7 +552,7 @@ func RestoreInto(db sm.IStateMachine, data []byte) (panicked bool) {
 			panicked = true
 		}
 	}()
-	if err := db.RecoverFromSnapshot(bytes.NewReader(data), nil, nil); err != nil {
+	if err := db.RecoverFromSnapshot(hx.NewShortReader(data), nil, nil); err != nil {
 		panic(err)
 	}
 	return false
